@@ -5,7 +5,31 @@ def T(shards, scale, timeout, **kw):
     d.update(kw)
     return d
 
+BECH32_ASSUME = [
+    "the BIP-173 reference codec in harness/ref/bech32 (transcribed from the BIP's reference code, self-checked against the BIP-173 valid/invalid vectors at start-up) is the specification",
+]
+
 PROPS = {
+    "C04": dict(
+        pkg="c04",
+        quick=T(4, 1, 600),
+        thorough=T(16, 50, 3000, fuzz=[dict(name="FuzzDecode", count=3000000)]),
+        assumptions=BECH32_ASSUME + ["strings are judged as byte strings; 'character' in the 90-character limit means byte (identical for the ASCII strings that can be valid)"],
+    ),
+    "C05": dict(
+        pkg="c05",
+        quick=T(4, 1, 600),
+        thorough=T(16, 50, 3000),
+        assumptions=BECH32_ASSUME,
+    ),
+    "C16": dict(
+        pkg="c16",
+        quick=T(4, 1, 600),
+        thorough=T(16, 60, 3400),
+        assumptions=BECH32_ASSUME + [
+            "syndrome argument: the checksum is measured black-box through Encode; that Decode rejects exactly the strings with a non-zero syndrome is property C04/C05 plus the end-to-end sub-checks here",
+        ],
+    ),
     "C10": dict(
         pkg="c10",
         quick=T(2, 1, 600),
